@@ -465,6 +465,9 @@ class OpRunner:
             return True
         R.inc("op_results_compared")
         R.inc("compared:" + op.name)
+        for g, r in zip(got, op.results):
+            if refsem.is_int(r.type) and (type(g) is not int or g != S(g, O.width(r.type))):
+                R.inc("observed_noncanonical_int_results:" + op.name)  # e.g. python bools from cmpi; not a violation
         R.cells.add(shash(("cell",) + cell))
         cmpres = O.compare(op, inputs, got, ref[1])
         if cmpres:
@@ -1132,7 +1135,7 @@ class Gen15(genprog.Gen):
 
     def rec_helper(self, name):
         """@rec(n, a): a if n <= 0 else rec(n - 1, f(a, n))"""
-        t = self.rng.choice([x for x in self.int_types if x != "i1"] or ["i32"])
+        t = self.rng.choice([x for x in self.int_types if x not in ("i1", "index")] or ["i32"])
         lines = []
         ind = "    "
         e2 = [("%n", "index"), ("%a", t)]
@@ -1143,7 +1146,10 @@ class Gen15(genprog.Gen):
                 f"  %stop = arith.cmpi sle, %n, %rc0 : index\n"
                 f"  %r = scf.if %stop -> ({t}) {{\n    scf.yield %a : {t}\n  }} else {{\n"
                 f"    %n1 = arith.subi %n, %rc1 : index\n" + "\n".join(lines) + "\n"
-                f"    %rr = func.call @{name}(%n1, {b}) : (index, {t}) -> {t}\n    scf.yield %rr : {t}\n  }}\n"
+                f"    %rr = func.call @{name}(%n1, {b}) : (index, {t}) -> {t}\n"
+                # the caller's own values are used AFTER the recursive call returned (scope restoration)
+                f"    %rn = arith.index_cast %n : index to {t}\n    %rx = arith.addi %rr, %a : {t}\n"
+                f"    %rz = arith.addi %rx, %rn : {t}\n    scf.yield %rz : {t}\n  }}\n"
                 f"  func.return %r : {t}\n}}\n")
         return text, ["index", t], [t]
 
@@ -1155,7 +1161,8 @@ class Gen15(genprog.Gen):
                                        nargs=self.rng.randint(1, 3))
             parts.append(text)
             self.helpers.append((name, ats, rts))
-        if rec and all(self.ok(x) for x in ("scf.if", "func.call", "arith.subi", "arith.cmpi")):
+        if rec and all(self.ok(x) for x in ("scf.if", "func.call", "arith.subi", "arith.cmpi", "arith.addi",
+                                            "arith.index_cast")):
             text, ats, rts = self.rec_helper("rec0")
             parts.append(text)
             self.helpers.append(("rec0", ats, rts))
